@@ -8,7 +8,7 @@ open PedVerif.Checker
 #print axioms cfg_strBranch
 open PedVerif.Call
 #print axioms wrapper_adds_nothing
-#print axioms wrapper_escapes_bodyMentionsStaticmethod
+#print axioms wrapper_escapes_moduleLevelStaticmethod
 #print axioms WrapperAddsNothing_full_is_false
 #print axioms checkArguments_some_tc
 #print axioms cfg_fallback
